@@ -456,6 +456,7 @@ def check_c13(chk, args):
     nv, nd, st = run_cases(chk, cases, meta, 'C13')
     chk.cov['evaluations'] = len(cases) * 2
     stdlib_cycles(chk)
+    aborted_prints(chk)
     chk.cov['traces_validated_against_impl'] = len(cases)
     chk.cov['rule'] = ('rooted directed graphs of list / dict / tuple nodes with 0-2 child slots (node or int leaf): all '
                        'with <= 2 nodes, all/sampled with 3 list-or-dict nodes, random ones up to 10 nodes; unreachable '
@@ -465,6 +466,68 @@ def check_c13(chk, args):
     for c in cases[:: max(1, len(cases) // 4)][:4]:
         chk.sample({'graph': meta[c['id']]['graph'], 'output': meta[c['id']]['out'][:200]})
     chk.stage('tlc.validate', graphs=len(cases), rejected=nv, drift=nd, states=st['distinct'])
+
+
+def aborted_prints(chk):
+    """'Printing leaves no residue': a print that is ABORTED by an exception escaping pformat (a leaf whose __repr__
+    raises; warnings turned into errors) must not influence later prints - of the same value, of another value that
+    shares its containers, with the same and with other settings."""
+    class Leaf:
+        armed = True
+
+        def __repr__(self):
+            if Leaf.armed:
+                raise RuntimeError('repr of the leaf fails')
+            return 'Leaf()'
+    inner = [1, 2]
+    mid = [inner, (inner, Leaf())]
+    top = {1: inner, 2: mid}
+    other = [mid, inner, top]
+    n = 0
+    for cfg in ({}, {'width': 20}, {'depth': 5}, {'indent': 2, 'sort_dict_keys': True}):
+        Leaf.armed = False
+        with warnings.catch_warnings():
+            warnings.simplefilter('ignore')
+            want = [P.pformat(top, **cfg), P.pformat(other, **cfg), P.pformat(inner, **cfg)]
+        Leaf.armed = True
+        aborted = None
+        try:
+            with warnings.catch_warnings():
+                warnings.simplefilter('ignore')
+                P.pformat(top, **cfg)
+        except Exception as e:  # noqa
+            aborted = repr(e)
+        Leaf.armed = False
+        with warnings.catch_warnings():
+            warnings.simplefilter('ignore')
+            got = [P.pformat(top, **cfg), P.pformat(other, **cfg), P.pformat(inner, **cfg)]
+        n += 7
+        desc = {'config': cfg, 'aborted_with': aborted}
+        if aborted is None:
+            continue          # the failure was contained: nothing was aborted
+        for name, w, g in zip(('the same value', 'another value sharing its containers', 'an inner container'), want, got):
+            if w != g:
+                chk.violation('C13.repeat', 'after a print aborted by %s, printing %s gives %r instead of %r (config %r)'
+                              % (aborted, name, g, w, cfg), dict(desc, output=g, expected=w))
+        chk.nontrivial(('aborted', repr(cfg)))
+    # a print aborted because a warning is an error
+    objs = build([{'k': 'list', 'c': [2, 2]}, {'k': 'obj', 'c': [-1], 'acc': False}])
+    Faults.inv, Faults.fault, Faults.exc, Faults.msg = 0, 1, ValueError, 'boom'
+    try:
+        with warnings.catch_warnings():
+            warnings.simplefilter('error')
+            P.pformat(objs[0])
+    except Exception:  # noqa
+        pass
+    Faults.inv, Faults.fault = 0, 0
+    with warnings.catch_warnings():
+        warnings.simplefilter('ignore')
+        again = P.pformat(objs[0])
+    if 'Recursion' in again:
+        chk.violation('C13.repeat', 'after a print aborted by a warning turned into an error, the value prints with a '
+                      'recursion marker although it contains no cycle: %r' % (again,), {'output': again})
+    chk.cov['evaluations'] += n + 2
+    chk.stage('aborted-prints', prints=n + 2)
 
 
 def stdlib_cycles(chk):
